@@ -187,6 +187,21 @@ def _key_tables(c, prog):
         nkeyed = sum(1 for k, r in R.items() if r["kind"] == "mutarg")
         c.inst("R2.error-edges:" + name, "a DuplicateKey and an InvalidKey return per unkeyed arm; DuplicateKey per keyed arm (+ proprietary, unknown)",
                ndup >= nun + nkeyed + 2 and ninv >= nun + nkeyed, "DuplicateKey returns %d, InvalidKey returns %d, unkeyed arms %d, keyed arms %d" % (ndup, ninv, nun, nkeyed), fr.where(), fr.path)
+    # the two catch-all maps: every `entry()` taken on self.proprietary / self.unknown in insert_pair has its own Occupied arm that
+    # returns DuplicateKey (one per entry call: or_insert / insert-over would accept the same key twice and keep one value)
+    for name, owner in MAPS.items():
+        fr2 = prog.fn("<%s as pset::map::Map>::insert_pair" % owner)
+        p2 = Prov(fr2.body)
+        ents = [(bi, show(p2._call(t, True), -12)) for bi, t in fr2.body.calls(lambda t: callee_name(t).endswith("BTreeMap::<K, V, A>::entry")
+                                                                                 and show(p2.operand(t["args"][0]), -9) in ("arg1.proprietary", "arg1.unknown"))]
+        dups = [e for e in err_returns(fr2.body) if "DuplicateKey" in str(e[1]) and e[2] and e[2][-1][1] == "Occupied"]
+        g2 = Guards(fr2.body)
+        covered = 0
+        for bi, term in ents:
+            if any(e[2][-1][0] == "discr(%s)" % term and fr2.body.dominates(bi, e[0]) for e in dups):
+                covered += 1
+        c.inst("R2.catch-all-duplicates:" + name, "each entry() on proprietary/unknown rejects an occupied key", ents and covered == len(ents),
+               "%d entry calls, %d with a dominated Occupied => DuplicateKey return" % (len(ents), covered), fr2.where(), fr2.path)
     c.floor("R1.key-field:Input", 46, "24 standard + 22 proprietary")
     c.floor("R1.key-field:Output", 18, "8 standard + 10 proprietary")
     _hash_helper(c, prog)
